@@ -9,6 +9,15 @@ if len(sys.argv) > 1 and os.path.exists(sys.argv[1]):
         f = l.split()
         if len(f) >= 4 and f[2].startswith("exit="):
             matrix.setdefault(f[0], {})[f[1]] = (int(f[2][5:]), int(f[3]))
+# the last column of the table as it stands (a matrix run over the own property only does not replace what wider runs found)
+prev_also = {}
+try:
+    cur = open(os.path.join(ROOT, "DESIGN.md")).read(); cur = cur[cur.index("<!-- SEEDED-TABLE-BEGIN -->"):cur.index("<!-- SEEDED-TABLE-END -->")]
+    for l in cur.splitlines():
+        c = [x.strip() for x in l.split("|")]
+        if len(c) >= 7 and re.match(r"C\d\d-[a-z]$", c[1]): prev_also[c[1]] = c[5]
+except Exception:
+    pass
 rows = []
 for d in sorted(glob.glob(os.path.join(ROOT, "seeded", "*"))):
     name = os.path.basename(d)
@@ -20,9 +29,13 @@ for d in sorted(glob.glob(os.path.join(ROOT, "seeded", "*"))):
     if len(summ) > 230:
         summ = summ[:227] + "..."
     neutral = m.get("status") == "neutralised"
-    owncell = "n/a (no longer a violation: see status_note)" if neutral else (("yes (%ss)" % int(own.get("wall_s", 0))) if own.get("detected") else "NO")
+    mo = matrix.get(name, {}).get(m["property"])
+    if mo is not None: own = {"detected": mo[0] == 1 and mo[1] > 0, "wall_s": own.get("wall_s", 0), "exit": mo[0]}
+    owncell = "n/a (no longer a violation: see status_note)" if neutral else "not demanded (section 10, eighth wave)" if m.get("status") == "not-demanded" else (("yes" + (" (%ss)" % int(own.get("wall_s", 0)) if own.get("wall_s") else "")) if own.get("detected") else "NO")
     fr = m.get("first_run"); first = "-" if fr is None else ("yes" if fr.get("detected") else "no")
-    rows.append("| %s | %s | %s | %s | %s |" % (name, summ, first, owncell, ", ".join(others) + ((" (inconclusive: " + ", ".join(incon) + ")") if incon else "")))
+    also = ", ".join(others) + ((" (inconclusive: " + ", ".join(incon) + ")") if incon else "")
+    if not also and len(matrix.get(name, {})) <= 1: also = prev_also.get(name, "")
+    rows.append("| %s | %s | %s | %s | %s |" % (name, summ, first, owncell, also))
 table = "| change | what it does | caught at first run (wave 3: before the change was looked at) | caught by its own property's quick check now | also caught by (columns of tools/matrix.sh) |\n|---|---|---|---|---|\n" + "\n".join(rows) + "\n"
 p = os.path.join(ROOT, "DESIGN.md")
 s = open(p).read()
